@@ -125,6 +125,13 @@ def emit_lean(incdir, repo=cbuild.REPO):
         rows.append("  (%s, %d) /- %d %s%s -/" % ("[" + ", ".join(map(str, sorted(callees))) + "]", len(e["writes"]), idx[n], n,
                                              (" writes " + ",".join(sorted(e["writes"]))) if e["writes"] else ""))
     o.append("def st_funcs : List (List Nat × Nat) := [\n" + ",\n".join(rows) + "]\n")
+    # functions called but not defined in lib/*.c (libc, compiler run-time); compiler builtins (`__builtin_*`) are code, not calls
+    o.append("/-- external functions each function calls (index = position in st_funcs) -/")
+    ext_rows = []
+    for n in names:
+        ext = sorted(c for c in funcs[n]["calls"] if c not in idx and not c.startswith("__builtin_"))
+        ext_rows.append("  [" + ", ".join('"%s"' % c for c in ext) + "]" + (" /- %s -/" % n if ext else ""))
+    o.append("def st_ext : List (List String) := [\n" + ",\n".join(ext_rows) + "]\n")
     missing = [r for r in REENTRANT if api(r) not in idx]
     if missing: raise RuntimeError("re-entrant API functions not found in the AST: %r" % missing)
     o.append("def st_reentrant : List Nat := [" + ", ".join(str(idx[api(r)]) for r in REENTRANT) + "]  -- " + ", ".join(REENTRANT) + "\n")
